@@ -202,7 +202,10 @@ pub fn run_tower<R>(
             .unwrap();
         tip
     };
-    assert!(tip.height >= IRREVOCABLY_RESOLVED, "HARNESS: chain too short to boot");
+    // The simulated chain is only a few hundred blocks long and reorganisations may reach down to its first blocks: a
+    // tower that resumes from a block below height 100 (only possible when the persisted block is one of a replacement
+    // branch that was being connected) loads as many blocks as exist, where the real chain would always have 100.
+    let n_boot = (IRREVOCABLY_RESOLVED as usize).min(tip.height as usize).max(1);
 
     let gatekeeper = Arc::new(Gatekeeper::new(
         tip.height,
@@ -218,7 +221,7 @@ pub fn run_tower<R>(
         // No durable write happens while the last 100 blocks are downloaded: all ~200 crash points in there are
         // equivalent to the one before, so they are not numbered.
         crate::hooks::SUPPRESS_POINTS.with(|c| c.set(true));
-        let last_n_blocks = block_on(get_last_n_blocks(&mut poller, tip, IRREVOCABLY_RESOLVED as usize));
+        let last_n_blocks = block_on(get_last_n_blocks(&mut poller, tip, n_boot));
         crate::hooks::SUPPRESS_POINTS.with(|c| c.set(false));
         let last_n_blocks = last_n_blocks.unwrap();
         let responder = Arc::new(Responder::new(
@@ -231,7 +234,7 @@ pub fn run_tower<R>(
         let watcher = Arc::new(Watcher::new(
             gatekeeper.clone(),
             responder.clone(),
-            &last_n_blocks[0..6],
+            &last_n_blocks[0..6.min(last_n_blocks.len())],
             tip.height,
             tower_sk,
             TowerId(tower_pk),
